@@ -12,7 +12,7 @@ from .workmeter import Meter, classify
 
 BUDGET_K = 400
 BUDGET_C = 400_000
-WALL = 120
+CPU_LIMIT = 30          # CPU seconds (user + system) per entry point; backs the line budget up inside C functions
 
 ENTRIES = ("extract_text", "extract_pages", "extract_text_to_fp:xml")
 
@@ -64,7 +64,7 @@ def run_all(data, password=""):
     out = []
     b = budget_for(data)
     for e in ENTRIES:
-        res, exc = _meter.run(_entry(e, data, password), b, wall=WALL)
+        res, exc = _meter.run(_entry(e, data, password), b, cpu=CPU_LIMIT)
         oc = classify(_meter, exc)
         detail = res if exc is None else "%s: %s" % (type(exc).__name__, str(exc)[:200])
         out.append((e, oc, _meter.count, detail))
